@@ -25,9 +25,30 @@ ANCHORS = ["prov.model:ProvDocument.serialize", "prov.model:ProvDocument.deseria
            "prov.serializers.provxml:ProvXMLSerializer.serialize", "prov.serializers.provxml:ProvXMLSerializer.deserialize",
            "prov.serializers.provrdf:ProvRDFSerializer.serialize", "prov.serializers.provrdf:ProvRDFSerializer.deserialize",
            "prov.serializers.provn:ProvNSerializer.serialize", "prov.serializers:Registry.load_serializers", "prov.serializers:get"]
-DESTS = ["string", "text_stream", "binary_stream", "path"]
+DESTS = ["string", "text_stream", "binary_stream", "path", "write_only_sink"]
+
+
+class Sink:
+    """A destination that has write() and nothing else (a hashing sink, a response body, a socket wrapper)."""
+
+    def __init__(self):
+        self.parts = []
+
+    def write(self, data):
+        self.parts.append(data)
+        return len(data)
+
+
+class ReadOnly:
+    """A source that has read() and nothing else."""
+
+    def __init__(self, data):
+        self._b = io.BytesIO(data)
+
+    def read(self, *a):
+        return self._b.read(*a)
 PATH_NAMES = ["out-été.%s", "a#b.%s", "x?y=1.%s", "semi;colon.%s", "with space.%s", "c:d.%s", "plain.%s"]
-SOURCES = ["content_str", "content_bytes", "text_stream", "binary_stream", "path", "text_file_other_encoding"]
+SOURCES = ["content_str", "content_bytes", "text_stream", "binary_stream", "path", "text_file_other_encoding", "read_only_object"]
 
 
 def plan(tier, seed):
@@ -89,8 +110,21 @@ def write_all(doc, fmt, box, kw=None, tag=""):
     b = io.BytesIO()
     doc.serialize(b, format=fmt, **kw)
     out["binary_stream"] = b.getvalue()
-    p = os.path.join(box, PATH_NAMES[len(fmt) % len(PATH_NAMES)] % (tag + fmt))
-    doc.serialize(p, format=fmt, **kw)
+    sink = Sink()
+    doc.serialize(sink, format=fmt, **kw)
+    out["write_only_sink"] = b"".join(sink.parts) if sink.parts and isinstance(sink.parts[0], bytes) else "".join(sink.parts)
+    name = PATH_NAMES[len(fmt) % len(PATH_NAMES)] % (tag + fmt)
+    p = os.path.join(box, name)
+    if len(kw) % 2 == 0:
+        # the same *relative* name in the case's own directory: every case uses another current directory
+        cwd = os.getcwd()
+        os.chdir(box)
+        try:
+            doc.serialize(name, format=fmt, **kw)
+        finally:
+            os.chdir(cwd)
+    else:
+        doc.serialize(p, format=fmt, **kw)
     with open(p, "rb") as f:
         out["path"] = f.read()
     return out, p
@@ -116,6 +150,8 @@ def read_source(kind, data, fmt, box, n):
         return pm.ProvDocument.deserialize(io.StringIO(text), format=fmt)
     if kind == "binary_stream":
         return pm.ProvDocument.deserialize(io.BytesIO(text.encode("utf-8")), format=fmt)
+    if kind == "read_only_object":
+        return pm.ProvDocument.deserialize(ReadOnly(text.encode("utf-8")), format=fmt)
     if kind == "text_file_other_encoding":
         # a text stream is text whatever encoding its file uses: written and re-opened with a non-UTF-8 codec
         enc = "utf-16"
